@@ -11,19 +11,24 @@
    specification (ReportSpec.v).  [report_struct] is the same function on the
    rows of C01's step file model ([C05_on_step_file_rows]).
 
-   Full statement of the property's body clause (kept here because the shipped
-   code refutes it, D14):
-       forall m cfg fs r, step_log m cfg fs r = spec_body m cfg fs r
-   It holds exactly when the excerpt is copied byte by byte
-   ([C05_body], hypotheses on the generated flags) and is refuted for the
-   shipped "%.*s" / "%s" ([C05_body_refuted], [C05_canvas_body_refuted]);
-   [C05_body_partial] is the statement under the exact guard (no NUL byte in
-   the part of the log that is shown). *)
-From Robsd Require Import Report.ReportSpec Report.ReportProofs.
+   The body clause of the property,
+       forall m cfg fs r, step_log m cfg fs r = spec_body m cfg fs r,
+   holds in full for the source as it is now ([C05_body_current]: both excerpt prints copy the bytes).  It was
+   refuted by the shipped "%.*s" / "%s" (D14, repaired in /repo 91740ae); the witnesses of that time
+   ([C05_body_refuted], [C05_canvas_body_refuted]) and the conditional forms ([C05_body], [C05_body_partial])
+   are kept as Remarks: historical pins, vacuous or redundant in the current tree, not results.
+
+   What "never hidden" does NOT cover is stated as theorems too: when a log that has to be read cannot be read
+   there is no report at all ([C05_report_main_silent], [C05_never_hidden_refuted], [C05_never_hidden_or_silent]). *)
+From Robsd Require Import Report.ReportSpec Report.ReportProofs Report.ReportNeverHidden Report.TailSpec Report.DurationProofs.
+From Robsd Require Orch.ResumeDefs Orch.ResumeExec Orch.WrittenInv Orch.ReportBridge.
 Local Open Scope N_scope.
 
-(* the model on C01's rows is the model on their report view *)
-Theorem C05_on_step_file_rows : forall m cfg (rows : list row) fs,
+(* Remarks are not results of this property: definitional facts and pins of earlier versions of the source,
+   kept so that the history of the model stays checked.  Only Theorems are counted. *)
+
+(* definitional: the model on C01's rows is the model on their report view *)
+Remark C05_on_step_file_rows : forall m cfg (rows : list row) fs,
   report_struct m cfg rows fs = report_struct_rows m cfg (map view rows) fs.
 Proof. exact (fun m cfg rows fs => eq_refl). Qed.
 Print Assumptions C05_on_step_file_rows.
@@ -63,6 +68,41 @@ Theorem C05_status_refuted_skipped_nonzero :
 Proof. exact status_refuted_skipped_nonzero. Qed.
 Print Assumptions C05_status_refuted_skipped_nonzero.
 
+(* The two hypotheses discharged for the step files the orchestrator produces, on the rows of ONE step
+   file seen through both views ([orch_view]: step, name, exit, skip; [view]: what the report reads):
+   - modes that count failures (regress, canvas): [written] = any history of writers - the skip records of
+     the entry scripts (exit code read from the scripts by the translator), the sequential loop and the
+     loop with parallel steps under every schedule, killed at any point and resumed any number of times;
+   - sequential modes: [reachv] = any crash/resume history of the sequential loop, exit codes free at
+     every attempt (Properties_C03.v). *)
+Theorem C05_written_skip_records_exit0 : forall f,
+  WrittenInv.written f -> forall r, In r f -> ResumeDefs.r_skip r = 1%Z -> ResumeDefs.r_exit r = 0%Z.
+Proof. exact WrittenInv.written_skip0. Qed.
+Print Assumptions C05_written_skip_records_exit0.
+
+Theorem C05_status_orchestrated : forall m (rows : list row),
+  (counting m = true -> WrittenInv.written (map ReportBridge.orch_view rows)) ->
+  (counting m = false -> exists k, ResumeExec.wf_skel k /\ ResumeExec.reachv k (map ReportBridge.orch_view rows)) ->
+  let rr := map view rows in
+  report_status m rr = spec_status m rr /\
+  (report_status m rr = str_ok <-> (forall r, In r rr -> r_skip r <> 1%Z -> r_exit r = 0%Z)) /\
+  (forall f fs, failures rr = f :: fs ->
+     if counting m then report_status m rr = count_text (List.length (f :: fs))
+     else fs = [] /\ report_status m rr = str_failed_in ++ r_name f).
+Proof. exact ReportBridge.status_orchestrated. Qed.
+Print Assumptions C05_status_orchestrated.
+
+(* that string is what the Subject: and the Status: line print *)
+Theorem C05_status_is_printed : forall m cfg host content fs out rows,
+  report_main m cfg host (Some content) fs = (0, out) -> parse_file content = Some rows ->
+  exists rep post,
+    rp_status rep = report_status m (map view rows) /\
+    out = spec_sanitize (s_subject ++ subject_text host rep ++ [10; 10] ++
+                         s_stats ++ [10] ++ s_status ++ rp_status rep ++ [10]) ++ post /\
+    exists pre, subject_text host rep = pre ++ rp_status rep.
+Proof. exact status_is_printed. Qed.
+Print Assumptions C05_status_is_printed.
+
 (* Sections: name, exit (as printed by "%d" of (int)exit) and log name of the
    sections are those of the listed rows, in row order; every non-skipped row
    with a non-zero exit is listed, a skipped row never is, a listed row with
@@ -85,6 +125,37 @@ Theorem C05_sections_exact : forall m cfg rows fs rep,
 Proof. exact sections_exact. Qed.
 Print Assumptions C05_sections_exact.
 
+(* the Exit: line prints the exit code itself whenever it fits an int (always, for wait statuses: -1, 1..255) *)
+Theorem C05_exit_printed_as_is : forall z, (-2147483648 <= z < 2147483648)%Z -> cast_int z = z.
+Proof. exact cast_int_small. Qed.
+Print Assumptions C05_exit_printed_as_is.
+
+(* never hidden, positively: in a report that is produced every failing row has its section at its place
+   among the listed rows, with the specified body; its sanitized text - name, exit, duration, log name, body -
+   is part of what robsd-report prints *)
+Theorem C05_failure_has_section : forall m cfg a r b fs rep,
+  report_struct_rows m cfg (a ++ r :: b) fs = ROk rep -> failing r = true ->
+  exists bd,
+    spec_body m cfg fs r = ROk bd /\
+    rp_sections rep =
+      map (fun x => section_of x (body_or_nil m cfg fs x)) (filter (spec_shown m cfg fs) a) ++
+      section_of r bd ::
+      map (fun x => section_of x (body_or_nil m cfg fs x)) (filter (spec_shown m cfg fs) b).
+Proof. exact failure_has_section. Qed.
+Print Assumptions C05_failure_has_section.
+
+Theorem C05_failed_step_is_printed : forall m cfg host content fs out rows a r b,
+  report_main m cfg host (Some content) fs = (0, out) ->
+  parse_file content = Some rows -> map view rows = a ++ r :: b -> failing r = true ->
+  exists bd pre post,
+    spec_body m cfg fs r = ROk bd /\
+    out = pre ++ spec_sanitize (render_section (section_of r bd)) ++ post /\
+    render_section (section_of r bd) =
+      [10; 62; 32] ++ r_name r ++ [10] ++ s_exit_ ++ render_Z (cast_int (r_exit r)) ++ [10] ++
+      s_duration_ ++ step_duration r ++ [10] ++ s_log_ ++ r_log r ++ [10] ++ bd.
+Proof. exact failed_step_is_printed. Qed.
+Print Assumptions C05_failed_step_is_printed.
+
 (* no report at all (exit 1, nothing printed) exactly when the lock file is
    missing, the comment cannot be read, a passing regress suite that is not
    quiet has no log name, or the log (cvs log in ports mode, packages.diff) of
@@ -94,22 +165,94 @@ Theorem C05_report_error_iff : forall m cfg rows fs,
 Proof. exact report_error_iff. Qed.
 Print Assumptions C05_report_error_iff.
 
+(* THE CAVEAT of "never hidden".  Full statement (refuted):
+       forall m cfg fs rows r, In r rows -> failing r = true -> exists rep, report_struct_rows m cfg rows fs = ROk rep
+   When [spec_error] holds robsd-report exits 1 and prints nothing at all, whatever failed: no Subject:, no
+   status, no section.  Witnesses: (i) the log of the failing step itself is unreadable; (ii) the failing
+   step's log is fine but a PASSING step that is always listed (dpb in robsd-ports mode, packages.diff missing)
+   cannot be rendered.  These are outside the property's quantifier as far as the orchestrator's own files go
+   (tee creates the log of every step that ran); the case that did occur in practice - cvs logs that were
+   never written, D18 - is repaired ([C05_ports_cvs_logs_missing_holds_now]).
+   [C05_never_hidden_or_silent] is the statement under the exact guard. *)
+Theorem C05_report_main_silent : forall m cfg host content rows fs,
+  parse_file content = Some rows -> spec_error m cfg fs (map view rows) = true ->
+  report_main m cfg host (Some content) fs = (1, []).
+Proof. exact report_main_silent. Qed.
+Print Assumptions C05_report_main_silent.
+
+Theorem C05_never_hidden_refuted :
+  (In silent_row [silent_row] /\ failing silent_row = true /\
+   c_running d14_cfg = true /\ f_comment silent_files = FAbsent /\
+   report_struct_rows Robsd d14_cfg [silent_row] silent_files = RErr) /\
+  (failing silent_row = true /\ failing silent_dpb = false /\
+   f_log readable_files (r_log silent_row) = Some [111; 10] /\
+   report_struct_rows Ports d14_cfg [silent_dpb; silent_row] readable_files = RErr /\
+   (exists rep, report_struct_rows Ports d14_cfg [silent_row] readable_files = ROk rep)).
+Proof. exact (conj never_hidden_refuted_own_log never_hidden_refuted_other_row). Qed.
+Print Assumptions C05_never_hidden_refuted.
+
+(* D18 as the source is now (/repo da850b3; the translator reads the test in report_cvs_log): a robsd-ports
+   invocation whose cvs logs were never written gets its report - cvs section without change logs, then the
+   failing step.  Pin: stops compiling if the test goes back to "only an empty file is passed over". *)
+Theorem C05_ports_cvs_logs_missing_holds_now :
+  cvs_missing_skipped = true /\
+  exists rep, report_struct_rows Ports d14_cfg [silent_cvs; silent_row] readable_files = ROk rep /\
+    rp_status rep = str_failed_in ++ r_name silent_row /\
+    map s_name (rp_sections rep) = [name_cvs; r_name silent_row] /\
+    map s_body (rp_sections rep) = [[10]; [10; 111; 10]].
+Proof. exact ports_cvs_logs_missing_holds_now. Qed.
+Print Assumptions C05_ports_cvs_logs_missing_holds_now.
+
+(* HISTORICAL PIN, not a result: before da850b3 the first cvs log that did not exist ended the loop with an error *)
+Remark C05_cvs_missing_refuted :
+  cvs_missing_skipped = false ->
+  exists m fs, snd (cvs_log m fs) = true /\ snd (spec_cvs m fs) = false.
+Proof. exact cvs_missing_refuted. Qed.
+Print Assumptions C05_cvs_missing_refuted.
+
+Theorem C05_never_hidden_or_silent : forall m cfg rows fs,
+  (spec_error m cfg fs rows = true /\ report_struct_rows m cfg rows fs = RErr) \/
+  (spec_error m cfg fs rows = false /\
+   exists rep, report_struct_rows m cfg rows fs = ROk rep /\
+     forall a r b, rows = a ++ r :: b -> failing r = true ->
+       exists bd sa sb, spec_body m cfg fs r = ROk bd /\ rp_sections rep = sa ++ section_of r bd :: sb /\
+                        List.length sa = List.length (filter (spec_shown m cfg fs) a)).
+Proof. exact never_hidden_or_silent. Qed.
+Print Assumptions C05_never_hidden_or_silent.
+
 (* the excerpt function is "the lines from the n-th last non-empty line on" *)
 Theorem C05_last_lines : forall c n, last_lines c n = spec_tail n c.
 Proof. exact last_lines_spec. Qed.
 Print Assumptions C05_last_lines.
 
+(* ... and what that means, without reference to either algorithm: the excerpt is a SUFFIX of the log that
+   starts at the beginning of a line and holds min(10, number of non-empty lines of the log) non-empty lines;
+   when something is cut off it holds exactly ten and starts with a non-empty line (so it is the shortest
+   such suffix); a log with fewer than ten non-empty lines is shown whole *)
+Theorem C05_excerpt_meaning : forall c,
+  exists p, c = p ++ last_lines c tail_lines /\
+    (p = [] \/ exists p', p = p' ++ [10]) /\
+    nonempty_lines (last_lines c tail_lines) = Nat.min 10 (nonempty_lines c) /\
+    (p <> [] -> nonempty_lines (last_lines c tail_lines) = 10%nat /\
+                exists x t, last_lines c tail_lines = x :: t /\ x <> 10).
+Proof. exact last_lines_meaning. Qed.
+Print Assumptions C05_excerpt_meaning.
+
+Theorem C05_short_log_shown_whole : forall c,
+  (nonempty_lines c < 10)%nat -> last_lines c tail_lines = c.
+Proof. exact short_log_shown_whole. Qed.
+Print Assumptions C05_short_log_shown_whole.
+
 (* Body under the exact guard: the shown part of the log holds no NUL byte (or
    the bytes are copied) *)
-Theorem C05_body_partial : forall m cfg fs r,
+Remark C05_body_partial : forall m cfg fs r,
   body_guard excerpt_copies_bytes canvas_copies_bytes m fs r ->
   step_log m cfg fs r = spec_body m cfg fs r.
 Proof. exact body_partial. Qed.
 Print Assumptions C05_body_partial.
 
-(* Body, full statement, for the repaired report.c (findings/D14_report_nul.diff):
-   the translator sets both flags when it finds buffer_puts in place of "%.*s"/"%s" *)
-Theorem C05_body : forall m cfg fs r,
+(* HISTORICAL PIN (premises are the generated flags, both [true] in the current tree: this is C05_body_current) *)
+Remark C05_body : forall m cfg fs r,
   excerpt_copies_bytes = true -> canvas_copies_bytes = true ->
   step_log m cfg fs r = spec_body m cfg fs r.
 Proof. exact body_if_copied. Qed.
@@ -121,9 +264,12 @@ Theorem C05_body_current : forall m cfg fs r, step_log m cfg fs r = spec_body m 
 Proof. exact (fun m cfg fs r => body_if_copied m cfg fs r eq_refl eq_refl). Qed.
 Print Assumptions C05_body_current.
 
-(* D14: as shipped, a NUL byte in the last lines cuts the excerpt - of
-   "l1\nl2<NUL>mid\nlast\n" only "l1\nl2" is printed *)
-Theorem C05_body_refuted :
+(* HISTORICAL PINS, not results: D14 was repaired in /repo (91740ae); the hypotheses below are generated
+   switches that are [true] now, so both statements are vacuously true in the current tree.  They become
+   meaningful again (and C05_body_current stops compiling) if a print goes back to a %s conversion.
+   D14: as shipped, a NUL byte in the last lines cut the excerpt - of "l1\nl2<NUL>mid\nlast\n" only
+   "l1\nl2" was printed *)
+Remark C05_body_refuted :
   excerpt_copies_bytes = false ->
   exists m cfg fs r, spec_shown m cfg fs r = true /\
     step_log m cfg fs r <> spec_body m cfg fs r /\
@@ -132,7 +278,7 @@ Theorem C05_body_refuted :
 Proof. exact body_refuted. Qed.
 Print Assumptions C05_body_refuted.
 
-Theorem C05_canvas_body_refuted :
+Remark C05_canvas_body_refuted :
   canvas_copies_bytes = false ->
   exists cfg fs r, step_log Canvas cfg fs r <> spec_body Canvas cfg fs r.
 Proof. exact canvas_body_refuted. Qed.
@@ -145,14 +291,24 @@ Theorem C05_sanitize_total : forall host rep,
 Proof. exact render_sane. Qed.
 Print Assumptions C05_sanitize_total.
 
-(* the oracles applied to the implementation's output accept the model's own output *)
-Theorem C05_model_passes_oracles : forall x rows rep,
-  rows_of x = Some rows ->
-  report_struct_rows (x_mode x) (cfg_of x) rows (files_of x) = ROk rep ->
-  spec_ok_sections x (map (fun s => (s_name s, (s_exit s, s_log s))) (rp_sections rep)) = true /\
-  (status_hyps (x_mode x) rows = true -> beq (rp_status rep) (spec_status (x_mode x) rows) = true) /\
-  spec_ok_sane (render (x_host x) rep) = true.
-Proof. exact model_passes_oracles. Qed.
+(* what is printed instead: NUL as the four characters \x00, CR as \r, every other byte as it is *)
+Theorem C05_sanitize_is_spec : forall s, sanitize s = spec_sanitize s.
+Proof. exact sanitize_spec. Qed.
+Print Assumptions C05_sanitize_is_spec.
+
+(* every oracle the harness applies to the implementation's output accepts the model: exit status, no NUL/CR,
+   section keys, the body of every section, subject and status (the status oracle judges the files that meet
+   the hypotheses of C05_status_ok_iff - which C05_status_orchestrated shows are the files that occur) *)
+Theorem C05_model_passes_oracles : forall x,
+  spec_ok_exit x (fst (run_fixture x)) = true /\
+  spec_ok_sane (snd (run_fixture x)) = true /\
+  forall rows rep, rows_of x = Some rows ->
+    report_struct_rows (x_mode x) (cfg_of x) rows (files_of x) = ROk rep ->
+    run_fixture x = (0, render (x_host x) rep) /\
+    spec_ok_sections x (map (fun s => (s_name s, (s_exit s, s_log s))) (rp_sections rep)) = true /\
+    (forall k s, nth_error (rp_sections rep) k = Some s -> spec_ok_body x k (sanitize (s_body s)) = true) /\
+    (status_hyps (x_mode x) rows = true -> spec_ok_status x (subject_text (x_host x) rep) (rp_status rep) = true).
+Proof. exact model_passes_all_oracles. Qed.
 Print Assumptions C05_model_passes_oracles.
 
 (* non-vacuity: a robsd build that failed in its second step after a skipped
